@@ -158,20 +158,20 @@ Variable idna_dec idna_enc : bytes -> option bytes.
 Variable lower : bytes -> bytes.
 Variable helem : bytes -> elres.
 Variable udigits : bytes -> option (option Z).
-Variable iv vq vu v7 vn : variant.
+Variable iv vq vu v7 vn vl : variant.
 Variable dscheme dhost : bytes.
 Variable dport : option N.
 
 Notation target_parse := (target_parse valid inet4 inet6 idna_dec vq v7).
 Notation compose_ok := (compose_ok idna_enc vq vu).
-Notation location_of := (location_of valid inet4 inet6 idna_dec idna_enc vq vu v7).
+Notation location_of := (location_of valid inet4 inet6 idna_dec idna_enc vq vu v7 vl).
 Notation set_defaults := (set_defaults dscheme dhost dport).
 Notation scheme_step := (scheme_step dscheme dhost dport).
-Notation uri_hooks := (uri_hooks valid inet4 inet6 idna_dec idna_enc lower vq vu v7 vn dscheme dhost dport).
-Notation server_target := (server_target valid inet4 inet6 idna_dec idna_enc lower iv vq vu v7 vn dscheme dhost dport).
+Notation uri_hooks := (uri_hooks valid inet4 inet6 idna_dec idna_enc lower vq vu v7 vn vl dscheme dhost dport).
+Notation server_target := (server_target valid inet4 inet6 idna_dec idna_enc lower iv vq vu v7 vn vl dscheme dhost dport).
 Notation host_sanitize := (host_sanitize inet4 inet6 lower udigits).
 Notation apply_host := (apply_host inet4 inet6 lower helem udigits).
-Notation request_head := (request_head valid inet4 inet6 idna_dec idna_enc lower helem udigits iv vq vu v7 vn dscheme dhost dport).
+Notation request_head := (request_head valid inet4 inet6 idna_dec idna_enc lower helem udigits iv vq vu v7 vn vl dscheme dhost dport).
 Notation norm := (UriNorm.normalize lower vn).
 
 Lemma validate_uri_inv m u : validate_uri m u = true ->
@@ -266,6 +266,17 @@ Proof.
   destruct (validate_uri m' u0) eqn:V; [|discriminate].
   pose proof (uri_hooks_spec m' v' u0) as H. intros E. rewrite E in H.
   destruct H as (-> & -> & H). exists target, u0. tauto.
+Qed.
+
+Lemma server_target_redirect line canon loc : server_target line = Redirect301 canon loc ->
+  exists m target v u0, req_parse iv line = RqTarget m target v /\ target_parse target = Ok u0 /\ validate_uri m u0 = true /\
+    redirected u0 canon /\ location_of canon = Ok (Some loc).
+Proof.
+  unfold ServerTarget.server_target. destruct (req_parse iv line) as [| | |m' target v'] eqn:R; try discriminate.
+  destruct (target_parse target) as [u0|[|]] eqn:T; try discriminate.
+  destruct (validate_uri m' u0) eqn:V; [|discriminate].
+  pose proof (uri_hooks_spec m' v' u0) as H. intros E. rewrite E in H.
+  exists m', target, v', u0. tauto.
 Qed.
 
 (* ---- C06_path / C06_no_userinfo_fragment / C06_scheme on the start-line outcome ---- *)
@@ -435,9 +446,9 @@ End Facts.
 (* C06_path: every delivered request has a sanitised path *)
 Lemma final_path :
   forall (valid : bytes -> bool) (inet4 inet6 idna_dec idna_enc : bytes -> option bytes) (lower : bytes -> bytes)
-         (helem : bytes -> elres) (udigits : bytes -> option (option Z)) (iv vq vu v7 vn : variant)
+         (helem : bytes -> elres) (udigits : bytes -> option (option Z)) (iv vq vu v7 vn vl : variant)
          (dscheme dhost : bytes) (dport : option N) (line : bytes) (hostv : option bytes) (u : ruri) (m : bytes) (v : version),
-  request_head valid inet4 inet6 idna_dec idna_enc lower helem udigits iv vq vu v7 vn dscheme dhost dport line hostv = FDeliver u m v ->
+  request_head valid inet4 inet6 idna_dec idna_enc lower helem udigits iv vq vu v7 vn vl dscheme dhost dport line hostv = FDeliver u m v ->
   path_ok (UriNorm.u_path u).
 Proof.
   intros until v. intros H. apply request_head_deliver in H as (u1 & S & A).
@@ -447,10 +458,10 @@ Qed.
 
 Lemma final_scheme :
   forall (valid : bytes -> bool) (inet4 inet6 idna_dec idna_enc : bytes -> option bytes) (lower : bytes -> bytes)
-         (helem : bytes -> elres) (udigits : bytes -> option (option Z)) (iv vq vu v7 vn : variant)
+         (helem : bytes -> elres) (udigits : bytes -> option (option Z)) (iv vq vu v7 vn vl : variant)
          (dscheme dhost : bytes) (dport : option N) (line : bytes) (hostv : option bytes) (u : ruri) (m : bytes) (v : version),
   http_scheme dscheme = true ->
-  request_head valid inet4 inet6 idna_dec idna_enc lower helem udigits iv vq vu v7 vn dscheme dhost dport line hostv = FDeliver u m v ->
+  request_head valid inet4 inet6 idna_dec idna_enc lower helem udigits iv vq vu v7 vn vl dscheme dhost dport line hostv = FDeliver u m v ->
   UriNorm.u_scheme u = S_HTTP_ST \/ UriNorm.u_scheme u = S_HTTPS_ST.
 Proof.
   intros until v. intros D H. apply request_head_deliver in H as (u1 & S & A).
@@ -462,9 +473,9 @@ Qed.
 
 Lemma final_no_userinfo_fragment :
   forall (valid : bytes -> bool) (inet4 inet6 idna_dec idna_enc : bytes -> option bytes) (lower : bytes -> bytes)
-         (helem : bytes -> elres) (udigits : bytes -> option (option Z)) (iv vq vu v7 vn : variant)
+         (helem : bytes -> elres) (udigits : bytes -> option (option Z)) (iv vq vu v7 vn vl : variant)
          (dscheme dhost : bytes) (dport : option N) (line : bytes) (hostv : option bytes) (u : ruri) (m : bytes) (v : version),
-  request_head valid inet4 inet6 idna_dec idna_enc lower helem udigits iv vq vu v7 vn dscheme dhost dport line hostv = FDeliver u m v ->
+  request_head valid inet4 inet6 idna_dec idna_enc lower helem udigits iv vq vu v7 vn vl dscheme dhost dport line hostv = FDeliver u m v ->
   UriNorm.u_user u = [] /\ UriNorm.u_pass u = [] /\ UriNorm.u_frag u = [].
 Proof.
   intros until v. intros H. apply request_head_deliver in H as (u1 & S & A).
@@ -478,9 +489,9 @@ Qed.
    field has none *)
 Lemma final_host_from_header :
   forall (valid : bytes -> bool) (inet4 inet6 idna_dec idna_enc : bytes -> option bytes) (lower : bytes -> bytes)
-         (helem : bytes -> elres) (udigits : bytes -> option (option Z)) (iv vq vu v7 vn : variant)
+         (helem : bytes -> elres) (udigits : bytes -> option (option Z)) (iv vq vu v7 vn vl : variant)
          (dscheme dhost : bytes) (dport : option N) (line raw : bytes) (u : ruri) (m : bytes) (v : version),
-  request_head valid inet4 inet6 idna_dec idna_enc lower helem udigits iv vq vu v7 vn dscheme dhost dport line (Some raw) = FDeliver u m v ->
+  request_head valid inet4 inet6 idna_dec idna_enc lower helem udigits iv vq vu v7 vn vl dscheme dhost dport line (Some raw) = FDeliver u m v ->
   exists text h pz,
     helem raw = ElValue text /\ host_sanitize inet4 inet6 lower udigits text = Some (h, pz) /\
     UriNorm.u_host u = h /\
@@ -499,10 +510,10 @@ Qed.
 (* the class default port of a delivered request is the one of its scheme *)
 Lemma final_class_port :
   forall (valid : bytes -> bool) (inet4 inet6 idna_dec idna_enc : bytes -> option bytes) (lower : bytes -> bytes)
-         (helem : bytes -> elres) (udigits : bytes -> option (option Z)) (iv vq vu v7 vn : variant)
+         (helem : bytes -> elres) (udigits : bytes -> option (option Z)) (iv vq vu v7 vn vl : variant)
          (dscheme dhost : bytes) (dport : option N) (line : bytes) (hostv : option bytes) (u : ruri) (m : bytes) (v : version),
   http_scheme dscheme = true ->
-  request_head valid inet4 inet6 idna_dec idna_enc lower helem udigits iv vq vu v7 vn dscheme dhost dport line hostv = FDeliver u m v ->
+  request_head valid inet4 inet6 idna_dec idna_enc lower helem udigits iv vq vu v7 vn vl dscheme dhost dport line hostv = FDeliver u m v ->
   u_dport u = class_port (UriNorm.u_scheme u).
 Proof.
   intros until v. intros D H. apply request_head_deliver in H as (u1 & S & A).
@@ -537,11 +548,11 @@ Qed.
 (* without a Host field: only below HTTP/1.1, and the URI is what the start-line hooks produced *)
 Lemma final_host_absent :
   forall (valid : bytes -> bool) (inet4 inet6 idna_dec idna_enc : bytes -> option bytes) (lower : bytes -> bytes)
-         (helem : bytes -> elres) (udigits : bytes -> option (option Z)) (iv vq vu v7 vn : variant)
+         (helem : bytes -> elres) (udigits : bytes -> option (option Z)) (iv vq vu v7 vn vl : variant)
          (dscheme dhost : bytes) (dport : option N) (line : bytes) (u : ruri) (m : bytes) (v : version),
-  request_head valid inet4 inet6 idna_dec idna_enc lower helem udigits iv vq vu v7 vn dscheme dhost dport line None = FDeliver u m v ->
+  request_head valid inet4 inet6 idna_dec idna_enc lower helem udigits iv vq vu v7 vn vl dscheme dhost dport line None = FDeliver u m v ->
   ver_ltb v (1, 1) = true /\
-  server_target valid inet4 inet6 idna_dec idna_enc lower iv vq vu v7 vn dscheme dhost dport line = Deliver u m v.
+  server_target valid inet4 inet6 idna_dec idna_enc lower iv vq vu v7 vn vl dscheme dhost dport line = Deliver u m v.
 Proof.
   intros until v. intros H. apply request_head_deliver in H as (u1 & S & A).
   apply apply_host_spec in A as (_ & _ & _ & (P & ->)). split; [|exact S].
@@ -552,10 +563,10 @@ Qed.
 (* ... and when the target carries no scheme of its own (origin-, asterisk-, authority-form) these are the configured defaults *)
 Lemma final_absent_defaults :
   forall (valid : bytes -> bool) (inet4 inet6 idna_dec idna_enc : bytes -> option bytes) (lower : bytes -> bytes)
-         (helem : bytes -> elres) (udigits : bytes -> option (option Z)) (iv vq vu v7 vn : variant)
+         (helem : bytes -> elres) (udigits : bytes -> option (option Z)) (iv vq vu v7 vn vl : variant)
          (dscheme dhost : bytes) (dport : option N) (line : bytes) (u : ruri) (m : bytes) (v : version),
   lower [] = [] ->
-  request_head valid inet4 inet6 idna_dec idna_enc lower helem udigits iv vq vu v7 vn dscheme dhost dport line None = FDeliver u m v ->
+  request_head valid inet4 inet6 idna_dec idna_enc lower helem udigits iv vq vu v7 vn vl dscheme dhost dport line None = FDeliver u m v ->
   exists target u0,
     req_parse iv line = RqTarget m target v /\ target_parse valid inet4 inet6 idna_dec vq v7 target = Ok u0 /\
     (UriNorm.u_scheme u0 = [] ->
@@ -569,8 +580,8 @@ Qed.
 (* C06_not_delivered_is_301_or_400: the other outcomes of the start-line hooks *)
 Lemma final_other_outcomes :
   forall (valid : bytes -> bool) (inet4 inet6 idna_dec idna_enc : bytes -> option bytes) (lower : bytes -> bytes)
-         (vq vu vn : variant) (dscheme dhost : bytes) (dport : option N) (line : bytes),
-  match server_target valid inet4 inet6 idna_dec idna_enc lower Repaired vq vu Repaired vn dscheme dhost dport line with
+         (vq vu vn vl : variant) (dscheme dhost : bytes) (dport : option N) (line : bytes),
+  match server_target valid inet4 inet6 idna_dec idna_enc lower Repaired vq vu Repaired vn vl dscheme dhost dport line with
   | Deliver _ _ _ | Bad400 => True
   | V505 => exists m target v, req_parse Repaired line = RqTarget m target v /\ ver_ltb SERVER_PROTOCOL v = true
   | Redirect301 canon loc =>
@@ -579,9 +590,10 @@ Lemma final_other_outcomes :
         canon = UriNorm.u_path (UriNorm.normalize lower vn u0) /\ canon <> UriNorm.u_path u0 /\
         no_dot_seg canon = true /\ no_dslash canon = true /\
         normalize_path (nonnil (lower (UriNorm.u_host u0))) (nonnil (lower (UriNorm.u_scheme u0))) canon = canon /\
-        location_of valid inet4 inet6 idna_dec idna_enc vq vu Repaired canon = Ok (Some loc)
+        location_of valid inet4 inet6 idna_dec idna_enc vq vu Repaired vl canon = Ok (Some loc)
   | Escape =>
-      (* only when the Location of a redirect cannot be composed: its host cannot be IDNA-encoded *)
+      (* only on the as-found tree (D55), when the re-parsed Location cannot be composed: its host cannot be IDNA-encoded *)
+      vl = AsFound /\
       exists canon u, uri_parse valid inet4 inet6 idna_dec vq Repaired canon = Ok u /\ uri_compose idna_enc vq vu u = None
   end.
 Proof.
@@ -593,18 +605,20 @@ Proof.
   destruct (uri_parse valid inet4 inet6 idna_dec vq Repaired target) as [pu|[|]] eqn:P; try exact I; [|exfalso; apply NU; reflexivity].
   set (u0 := U _ _ _ _ _ _ _ _ _).
   destruct (validate_uri m u0); [|exact I].
-  pose proof (uri_hooks_spec valid inet4 inet6 idna_dec idna_enc lower vq vu Repaired vn dscheme dhost dport m v u0) as H.
-  destruct (ServerTarget.uri_hooks _ _ _ _ _ _ _ _ _ _ _ _ _ m v u0) as [u' m' v'|canon loc| | |]; try exact I.
+  pose proof (uri_hooks_spec valid inet4 inet6 idna_dec idna_enc lower vq vu Repaired vn vl dscheme dhost dport m v u0) as H.
+  destruct (ServerTarget.uri_hooks _ _ _ _ _ _ _ _ _ _ _ _ _ _ m v u0) as [u' m' v'|canon loc| | |]; try exact I.
   - destruct H as ((E & NEQ & A & B) & L). exists m, target, v, u0.
     split; [reflexivity|]. split; [rewrite P; reflexivity|].
     split; [exact E|]. split; [exact NEQ|]. split; [exact A|]. split; [exact B|]. split; [|exact L].
     rewrite E. rewrite (normalize_eq lower vn u0). cbn [UriNorm.u_path]. apply normalize_path_idem.
   - exists m, target, v. split; [reflexivity | exact H].
-  - destruct H as (canon & _ & [L|L]).
-    + unfold ServerTarget.location_of in L.
-      destruct (uri_parse valid inet4 inet6 idna_dec vq Repaired canon) as [cu|e] eqn:CP; [|discriminate].
+  - destruct H as (canon & _ & L). unfold ServerTarget.location_of in L.
+    destruct vl.
+    2:{ exfalso. unfold uri_compose, compose_authority in L. cbn in L. destruct L as [L|L]; discriminate. }
+    split; [reflexivity|]. destruct L as [L|L].
+    + destruct (uri_parse valid inet4 inet6 idna_dec vq Repaired canon) as [cu|e] eqn:CP; [|discriminate].
       injection L as L. exists canon, cu. split; [exact CP | exact L].
-    + exfalso. unfold ServerTarget.location_of in L.
+    + exfalso.
       pose proof (uri_parse_not_uni valid inet4 inet6 idna_dec vq canon) as NU2.
       destruct (uri_parse valid inet4 inet6 idna_dec vq Repaired canon) as [cu|e]; [discriminate|].
       injection L as ->. apply NU2. reflexivity.
@@ -614,13 +628,13 @@ Qed.
 (* with a total IDNA encoder nothing escapes *)
 Lemma final_no_escape :
   forall (valid : bytes -> bool) (inet4 inet6 idna_dec idna_enc : bytes -> option bytes) (lower : bytes -> bytes)
-         (vq vu vn : variant) (dscheme dhost : bytes) (dport : option N) (line : bytes),
+         (vq vu vn vl : variant) (dscheme dhost : bytes) (dport : option N) (line : bytes),
   (forall h, idna_enc h <> None) ->
-  server_target valid inet4 inet6 idna_dec idna_enc lower Repaired vq vu Repaired vn dscheme dhost dport line <> Escape.
+  server_target valid inet4 inet6 idna_dec idna_enc lower Repaired vq vu Repaired vn vl dscheme dhost dport line <> Escape.
 Proof.
   intros until line. intros T E.
-  pose proof (final_other_outcomes valid inet4 inet6 idna_dec idna_enc lower vq vu vn dscheme dhost dport line) as H.
-  rewrite E in H. destruct H as (canon & u & _ & C).
+  pose proof (final_other_outcomes valid inet4 inet6 idna_dec idna_enc lower vq vu vn vl dscheme dhost dport line) as H.
+  rewrite E in H. destruct H as (_ & canon & u & _ & C).
   unfold uri_compose, compose_authority in C. destruct (nonempty (UriSyntax.u_host u)); [|discriminate].
   destruct (idna_enc (UriSyntax.u_host u)) eqn:I; [discriminate|]. exact (T _ I).
   Unshelve. all: try assumption.
@@ -629,15 +643,15 @@ Qed.
 (* absolute-form: the redirect names a sanitised path *)
 Lemma final_redirect_rooted :
   forall (valid : bytes -> bool) (inet4 inet6 idna_dec idna_enc : bytes -> option bytes) (lower : bytes -> bytes)
-         (vq vu vn : variant) (dscheme dhost : bytes) (dport : option N) (line canon loc : bytes) (m target : bytes) (v : version) (u0 : ruri),
-  server_target valid inet4 inet6 idna_dec idna_enc lower Repaired vq vu Repaired vn dscheme dhost dport line = Redirect301 canon loc ->
+         (vq vu vn vl : variant) (dscheme dhost : bytes) (dport : option N) (line canon loc : bytes) (m target : bytes) (v : version) (u0 : ruri),
+  server_target valid inet4 inet6 idna_dec idna_enc lower Repaired vq vu Repaired vn vl dscheme dhost dport line = Redirect301 canon loc ->
   req_parse Repaired line = RqTarget m target v ->
   target_parse valid inet4 inet6 idna_dec vq Repaired target = Ok u0 ->
   nonnil (lower (UriNorm.u_scheme u0)) = true -> nonnil (lower (UriNorm.u_host u0)) = true ->
   path_ok canon /\ canon <> STAR /\ canon <> [].
 Proof.
   intros until u0. intros S R T HS HH.
-  pose proof (final_other_outcomes valid inet4 inet6 idna_dec idna_enc lower vq vu vn dscheme dhost dport line) as H.
+  pose proof (final_other_outcomes valid inet4 inet6 idna_dec idna_enc lower vq vu vn vl dscheme dhost dport line) as H.
   rewrite S in H. destruct H as (m' & t' & v' & u0' & R' & T' & E & NE & A & B & _).
   rewrite R in R'. injection R' as <- <- <-. rewrite T in T'. injection T' as <-.
   apply (redirected_rooted lower vn u0 canon); auto. repeat split; auto.
@@ -651,9 +665,12 @@ Definition ex_udig : bytes -> option (option Z) := fun _ => None.      (* no non
 Definition LOCALHOST : bytes := X "6c6f63616c686f7374".
 (* ServerStateMachine('http', 'localhost', 8090) on the working tree's variants *)
 Definition ex_target : bytes -> outcome :=
-  server_target utf8_valid ex_none ex_none ex_id ex_id lower_ascii Repaired AsFound Repaired Repaired Repaired S_HTTP_ST LOCALHOST (Some 8090).
+  server_target utf8_valid ex_none ex_none ex_id ex_id lower_ascii Repaired AsFound Repaired Repaired Repaired Repaired S_HTTP_ST LOCALHOST (Some 8090).
 Definition ex_head : bytes -> option bytes -> final :=
-  request_head utf8_valid ex_none ex_none ex_id ex_id lower_ascii ElValue ex_udig Repaired AsFound Repaired Repaired Repaired S_HTTP_ST LOCALHOST (Some 8090).
+  request_head utf8_valid ex_none ex_none ex_id ex_id lower_ascii ElValue ex_udig Repaired AsFound Repaired Repaired Repaired Repaired S_HTTP_ST LOCALHOST (Some 8090).
+(* ... and before the repair of D55 (the Location re-parsed) *)
+Definition ex_target_asfound : bytes -> outcome :=
+  server_target utf8_valid ex_none ex_none ex_id ex_id lower_ascii Repaired AsFound Repaired Repaired Repaired AsFound S_HTTP_ST LOCALHOST (Some 8090).
 
 (* GET /a/%2e%2E/b//c/./%2fd?q HTTP/1.1 -> 301;  GET /b/c/%2fd?q=1 HTTP/1.1 + Host: Example.COM:8080 -> delivered *)
 Lemma ex_deliver :
@@ -691,8 +708,8 @@ Proof.
   intros [H|[H|[H _]]]; vm_compute in H; discriminate.
 Qed.
 
-(* D55: "GET /x/../%2561 HTTP/1.1" -- the normalised path is "/%61" (a segment spelled percent-6-1), the Location says "/a" *)
+(* D55 (as found): "GET /x/../%2561 HTTP/1.1" -- the normalised path is "/%61" (a segment spelled percent-6-1), the Location says "/a" *)
 Lemma witness_redirect_reparsed :
-  exists canon loc, ex_target (X "474554202f782f2e2e2f253235363120485454502f312e31") = Redirect301 canon loc /\
+  exists canon loc, ex_target_asfound (X "474554202f782f2e2e2f253235363120485454502f312e31") = Redirect301 canon loc /\
     canon = X "2f253631" /\ loc = X "2f61" /\ unquote loc <> canon.
 Proof. eexists _, _. split; [vm_compute; reflexivity|]. repeat split. vm_compute. discriminate. Qed.
